@@ -61,6 +61,11 @@ bool handshake_pow_valid(const PeerId&, const PeerId&, std::uint32_t initiator_p
 #include SNIP_AUTO
 }
 #include SNIP_PERFORM_HANDSHAKE
+#ifdef VERIF_RACE
+#include SNIP_ROTATE_SESSION_KEYS
+#include SNIP_SESSION_KEY
+#include SNIP_SESSION_SHARED_KEY
+#endif
 }
 // Engine S: the Diffie-Hellman secret (modular exponentiation of a symbolic base) is an uninterpreted function of (private, public)
 extern "C" void h_uf_shared_secret(ephemeralnet::crypto::Key* out, std::uint32_t priv, std::uint32_t pub) {
@@ -150,5 +155,52 @@ extern "C" void h_c20_history_pow(unsigned long k) {
         if (!accepted) verif_assert(g_registered_keys == regs_before, "C20: a rejected handshake registers no session key");
         verif_reach(accepted ? "accepted" : "rejected");
     }
+}
+#endif
+#ifdef VERIF_RACE
+#include <mutex>
+#include <thread>
+// ---------------------------------------------------------------- C36: lock discipline on the key / handshake state of Node
+// Thread roles as in the daemon: the transport accept thread runs perform_handshake (via handle_transport_handshake) with no lock; a
+// session reader thread looks the session key up (session_shared_key) with no lock; the serve loop runs tick -> rotate_session_keys and the
+// control handlers run session_key, both under the node mutex of main.cpp. Every access to key_manager_, handshake_state_ and reputation_
+// made in a role is logged with the set of mutexes held; the driver then requires a common mutex for every pair of roles that can run
+// concurrently and touch the same member, at least one of them writing.
+namespace { std::mutex g_node_mutex; }
+extern "C" void h_c36_locksets(unsigned long) {
+    PartialNode pn; Node* n = pn.node();
+    n->config_.handshake_pow_difficulty = 0; n->config_.handshake_cooldown = std::chrono::seconds(nondet_u8("cooldown_s") & 15);
+    verif_env::start_clock();
+    verif_lock_name(&g_node_mutex, "node_mutex");
+    verif_watch(&n->key_manager_, sizeof n->key_manager_, "Node::key_manager_");
+    verif_watch(&n->handshake_state_, sizeof n->handshake_state_, "Node::handshake_state_");
+    verif_watch(&n->reputation_, sizeof n->reputation_, "Node::reputation_");
+    // a session exists already (so that rotation and look-ups have something to work on)
+    (void)n->perform_handshake(remote_id(), 7, 1);
+    for (int round = 0; round < 2; ++round) {
+        verif_env::advance_clock();
+        verif_context("accept-thread");
+        (void)n->perform_handshake(remote_id(), nondet_u32("offered_public"), nondet_u64("nonce"));
+        verif_context("reader-thread");
+        (void)n->session_shared_key(remote_id());
+        verif_context("tick-thread");
+        { std::scoped_lock lock(g_node_mutex); n->rotate_session_keys(std::chrono::steady_clock::now()); }
+        verif_context("control-thread");
+        { std::scoped_lock lock(g_node_mutex); (void)n->session_key(remote_id()); }
+        verif_context("");
+    }
+    verif_reach("roles-run");
+}
+// native confirmation: the same roles as real threads under ThreadSanitizer
+extern "C" void h_c36_tsan(unsigned long) {
+    PartialNode pn; Node* n = pn.node();
+    n->config_.handshake_pow_difficulty = 0; n->config_.handshake_cooldown = std::chrono::seconds(0);
+    n->key_manager_.~KeyManager(); new (&n->key_manager_) network::KeyManager(std::chrono::seconds(1));
+    (void)n->perform_handshake(remote_id(), 7, 1);
+    std::thread accept([&] { for (int i = 0; i < 400; ++i) (void)n->perform_handshake(remote_id(), 7 + static_cast<std::uint32_t>(i % 5), 1); });
+    std::thread reader([&] { for (int i = 0; i < 400; ++i) (void)n->session_shared_key(remote_id()); });
+    std::thread serve([&] { for (int i = 0; i < 400; ++i) { std::scoped_lock lock(g_node_mutex); n->rotate_session_keys(std::chrono::steady_clock::now()); (void)n->session_key(remote_id()); } });
+    accept.join(); reader.join(); serve.join();
+    std::printf("TSAN-RUN-DONE\n");
 }
 #endif
